@@ -202,3 +202,7 @@ def check(ctx):
               and kw(mk[0], "grow") == c(False))
     ctx.ob("C02.R4", bm, "the model is built from a traversal made after the model nodes "
                          "were added", ok, detail=short(mk[0]) if mk else "")
+
+    # ---- shared mechanisms: the neighbour's rules run as obligations of this property
+    ctx.include("C01", "C02.R5", only=['C01.R5'])
+    ctx.rule("R5", "shared mechanisms, run as obligations of this property: the update order the totals are computed in is the one C01 proves (wiring / topological sweep).")
